@@ -50,12 +50,17 @@ func refPad(p []byte) []byte {
 	return out
 }
 
-func refUnpad(p []byte) ([]byte, bool) {
-	if len(p) == 0 || len(p)%16 != 0 {
+func refUnpad(p []byte) ([]byte, bool) { return refUnpadN(p, 16) }
+
+// refUnpadN is RFC 5652 section 6.3 read backwards for block size k: the input
+// is a positive whole number of blocks, its last byte v satisfies 1 <= v <= k
+// and the last v bytes all equal v.
+func refUnpadN(p []byte, k int) ([]byte, bool) {
+	if len(p) == 0 || len(p)%k != 0 {
 		return nil, false
 	}
 	n := int(p[len(p)-1])
-	if n < 1 || n > 16 {
+	if n < 1 || n > k {
 		return nil, false
 	}
 	for _, c := range p[len(p)-n:] {
